@@ -586,6 +586,41 @@ func (g *bGen) deviate(c *bCase) {
 			c.Msg.Markets[j].Orders = append(c.Msg.Markets[j].Orders, mo)
 			return true
 		}},
+		{"same-nonce-in-two-markets", func() bool {
+			// the entry of one of our orders appears a second time in another market
+			// (their orders relabelled to that market's duration so that the bucket
+			// check passes): which copy ParseRPCBatch keeps depends on Go's map order
+			if len(c.Msg.Markets) < 2 {
+				return false
+			}
+			i := rng.Intn(len(c.Msg.Markets))
+			j := (i + 1 + rng.Intn(len(c.Msg.Markets)-1)) % len(c.Msg.Markets)
+			if len(c.Msg.Markets[i].Orders) == 0 {
+				return false
+			}
+			src := c.Msg.Markets[i].Orders[rng.Intn(len(c.Msg.Markets[i].Orders))]
+			for _, mo := range c.Msg.Markets[j].Orders {
+				if mo.Nonce == src.Nonce {
+					return false
+				}
+			}
+			cp := bMatched{Nonce: src.Nonce, Asks: append([]bTheir{}, src.Asks...), Bids: append([]bTheir{}, src.Bids...)}
+			for x := range cp.Asks {
+				cp.Asks[x].Duration = c.Msg.Markets[j].Duration
+			}
+			for x := range cp.Bids {
+				cp.Bids[x].Duration = c.Msg.Markets[j].Duration
+			}
+			if rng.Intn(2) == 0 && len(cp.Asks)+len(cp.Bids) > 1 {
+				if len(cp.Asks) > 0 {
+					cp.Asks = cp.Asks[:len(cp.Asks)-1]
+				} else {
+					cp.Bids = cp.Bids[:len(cp.Bids)-1]
+				}
+			}
+			c.Msg.Markets[j].Orders = append(c.Msg.Markets[j].Orders, cp)
+			return true
+		}},
 		// ---- our stored order
 		{"our-rate", func() bool {
 			o := pickOrder()
@@ -1194,7 +1229,7 @@ func (g *bGen) deviate(c *bCase) {
 	// half of the deviations come from the sites closest to the property under check
 	focus := map[string][]string{
 		"C01": {"batch-version", "batch-version-flag", "height-hint-edge", "height-wrap", "clearing-price",
-			"market-duration", "move-order-to-other-market", "our-rate", "our-duration", "our-auction-type",
+			"market-duration", "move-order-to-other-market", "same-nonce-in-two-markets", "our-rate", "our-duration", "our-auction-type",
 			"our-side", "our-unfulfilled", "our-min-match", "allow-list", "deny-list", "their-side",
 			"their-duration", "their-auction-type", "their-rate", "their-node-key", "their-units", "extra-match",
 			"drop-match", "unknown-our-nonce"},
